@@ -379,7 +379,8 @@ def seeded_mutants():
         with open(meta) as f:
             m = json.load(f)
         out.append({'id': 'S:' + os.path.basename(os.path.dirname(meta)), 'prop': m['property'],
-                    'patch': os.path.join(os.path.dirname(meta), 'patch.diff'), 'note': m.get('needs', '')})
+                    'patch': os.path.join(os.path.dirname(meta), 'patch.diff'), 'note': m.get('needs', ''),
+                    'expect': m.get('verif_expect', 'detected')})
     return out
 
 
